@@ -28,6 +28,9 @@ func lazyPrograms() (ids []string, progs [][]node) {
 						if (route == "lazy-error-unforced" || route == "strict-error") && pat != "none" && pat != "once" {
 							continue
 						}
+						if (route == "tail-let" || route == "tail-param" || route == "dead-defn" || route == "old-closure") && (pat == "substitute" || pat == "reverse") {
+							continue
+						}
 						id := fmt.Sprintf("lz-n%d-m%d-v%d-%s-%s", n, mask, variadic, route, pat)
 						prog := lazyProgram(n, mask, variadic == 1, route, pat)
 						if prog == nil {
